@@ -261,6 +261,11 @@ def byte_contracts():
         if k is None:
             k = c.ex.concretize(c.entry, c.args["count"]) if hasattr(c.ex, "concretize") else None
         if k is None or k not in BV_COUNTS:
+            import os as _os
+            if _os.environ.get("C10_DEBUG"):
+                print("DEBUG count term:", c.args["count"].t.sexpr()[:300], "k=", k, "ghost", {g: v for g, v in c.entry.ghost.items() if str(g).startswith("bounded")})
+                for p_ in c.entry.pc:
+                    print("   pc:", p_.sexpr()[:260].replace("\n", " "))
             raise ops.Unsupported("_read_boolean_vector: count outside the BOUNDED scope")
         return k
 
@@ -504,18 +509,28 @@ class C10Executor(Executor):
             return c
         from pyvc.symex import _has_quantifier
         pcs = [p_ for p_ in st.pc if not _has_quantifier(p_)]
-        self.feas.push()
-        try:
-            self.feas.add(*pcs)
-            if self.feas.check() != z3.sat:
-                return None
-            val = self.feas.model().eval(v.t, model_completion=True)
-            if not (z3.is_int_value(val) or z3.is_bv_value(val)):
-                return None
-            self.feas.add(v.t != val)
-            return val.as_long() if self.feas.check() == z3.unsat else None
-        finally:
-            self.feas.pop()
+        sol = z3.Solver()
+        sol.set("timeout", 20000)
+        sol.add(*pcs)
+        # bounded scopes are small: try the small candidates first (one unsat query each), then a model-guided guess
+        w = v.t.size() if v.is_bv else None
+        for k in range(0, 9):
+            kv = z3.BitVecVal(k, w) if w else z3.IntVal(k)
+            sol.push()
+            sol.add(v.t != kv)
+            r = sol.check()
+            sol.pop()
+            if r == z3.unsat:
+                return k
+            if r == z3.unknown:
+                break
+        if sol.check() != z3.sat:
+            return None
+        val = sol.model().eval(v.t, model_completion=True)
+        if not (z3.is_int_value(val) or z3.is_bv_value(val)):
+            return None
+        sol.add(v.t != val)
+        return val.as_long() if sol.check() == z3.unsat else None
 
     def b_range(self, st, args, kwargs, node):
         if len(args) == 1 and isinstance(args[0], VInt) and args[0].const() is None and getattr(self.contract, "bounded", ""):
@@ -1841,6 +1856,222 @@ def parser_contracts():
         raises=[Raises(BAD, when=ss_raise, label="bad end marker / short stream")],
         bounded=f"folder / sub-stream shapes {SHAPES} (one coder output size per folder, no folder CRC); every stream byte symbolic",
         note="the last size of a folder is its unpack size minus the explicit ones; sizes assumed positive (writers' invariant)"))
+    # ---- _parse_folder / _parse_unpack_info (BOUNDED shapes, simple coders)
+    def seq_eq(a, b):
+        """bytes value a (VSeq | VBytes) equals the spec sequence b = (length term, elem fn): goal position only"""
+        j = z3.Int(fresh_name("j!seq"))
+        if isinstance(a, VSeq):
+            return z3.And(a.length == b[0], z3.Implies(z3.And(j >= 0, j < b[0]), a.elem(j).t == b[1](j)))
+        if isinstance(a, VBytes):
+            return z3.And([b[0] == len(a.items)] + [x.t == b[1](z3.IntVal(i)) for i, x in enumerate(a.items)])
+        return z3.BoolVal(False)
+
+    def spec_folder(s, q, ncoders, has_props):
+        """Folder ::= NumCoders { flags id[flags & 0xF] [0x20: PropertiesSize Properties] } (NumCoders-1) x (InIndex OutIndex)
+        simple coders only (flag 0x10 clear): one packed stream, no PackedStreams list.
+        -> (cond, [(id_len, id_elem, props | None)], end)"""
+        cond = [NUMV(s, q) == bv(ncoders, 64)]
+        q = q + NUML(s, q)
+        coders = []
+        for i in range(ncoders):
+            fl = SB(s, q)
+            cond.append(z3.Extract(4, 4, fl) == 0)
+            cond.append((z3.Extract(5, 5, fl) == 1) if has_props[i] else (z3.Extract(5, 5, fl) == 0))
+            idlen = z3.BV2Int(z3.Extract(3, 0, fl), False)
+            idpos = q + 1
+            q = idpos + idlen
+            props = None
+            if has_props[i]:
+                plen = z3.BV2Int(NUMV(s, q), False)
+                ppos = q + NUML(s, q)
+                props = (plen, (lambda j, ppos=ppos: SB(s, ppos + j)))
+                q = ppos + plen
+            coders.append((idlen, (lambda j, idpos=idpos: SB(s, idpos + j)), props))
+        for _ in range(ncoders - 1):
+            q = q + NUML(s, q)
+            q = q + NUML(s, q)
+        return z3.And(cond), coders, q
+
+    def folder_matches(c, st, fobj, coders_spec):
+        d = st.obj(fobj.ref).data
+        cl = c.ex.concrete_items(st, d["coders"]) if isinstance(d.get("coders"), VRef) else None
+        if cl is None or len(cl) != len(coders_spec):
+            return z3.BoolVal(False)
+        gs = []
+        for item, (idlen, idel, props) in zip(cl, coders_spec):
+            if not (isinstance(item, VTuple) and len(item.items) == 2):
+                return z3.BoolVal(False)
+            gs.append(seq_eq(item.items[0], (idlen, idel)))
+            if props is None:
+                gs.append(z3.BoolVal(item.items[1] is NONE))
+            else:
+                gs.append(seq_eq(item.items[1], props))
+        return z3.And(gs + [z3.BoolVal(True)])
+
+    FSHAPES = [(1, (False,)), (1, (True,)), (2, (False, False)), (2, (True, False)), (2, (False, True)), (2, (True, True))]
+
+    def pf_bind(c):
+        s_, p = S(c), pos0(c)
+        for (n, hp) in FSHAPES:
+            cond, _cs, _e = spec_folder(s_, p, n, hp)
+            if not c.ex.feasible(c.st.pc, z3.Not(cond)):
+                c.entry.ghost["bounded_fshape"] = (n, hp)
+                break
+        return req_stream(c)
+
+    def pf_post(c):
+        n, hp = c.entry.ghost["bounded_fshape"]
+        _cond, cs, end = spec_folder(S(c), pos0(c), n, hp)
+        r = c.result
+        if not (isinstance(r, VRef) and c.st.obj(r.ref).cls == "Folder"):
+            return z3.BoolVal(False)
+        us = c.ex.concrete_items(c.st, c.st.obj(r.ref).data["unpack_sizes"])
+        return z3.And(folder_matches(c, c.st, r, cs), pos1(c) == end, end <= SLEN(S(c)), z3.BoolVal(us == []))
+
+    def pf_raise(c):
+        n, hp = c.entry.ghost["bounded_fshape"]
+        _cond, _cs, end = spec_folder(S(c), pos0(c), n, hp)
+        return end > SLEN(S(c))
+
+    out.append(FnContract(
+        target=f"{RD}._parse_folder",
+        params=[("self", p_reader_cases({}, [(lambda s, pos, n=n, hp=hp: spec_folder(s, pos, n, hp)[0]) for (n, hp) in FSHAPES]))],
+        requires=pf_bind, inline=True,
+        ensures=[("coders-and-position-equal-the-Folder-grammar", pf_post)],
+        raises=[Raises(BAD, when=pf_raise, label="short stream")],
+        bounded="1..2 simple coders (flag 0x10 clear) with / without properties; ids, property bytes and every NUMBER symbolic",
+        note="callers inline the body (inline=True); complex coders (BCJ2: several in/out streams) are outside this reader's support"))
+
+    USHAPES = [(), (1,), (2,)]
+
+    def spec_unpack(s, p, shape):
+        """UnpackInfo ::= 0x07 0x0B NumFolders External=0 Folder* 0x0C UnpackSize:NUMBER per coder output [0x0A Digests(NumFolders)] 0x00
+        -> [(cond, ('none', p) | ('ok', [coder specs per folder], [[sizes]], [crc | None per folder], end) | ('bad', end))]"""
+        import itertools as _it
+        cases = [(SB(s, p) != bv(7), ("none", p))]
+        head = [SB(s, p) == bv(7)]
+        cases.append((z3.And(head + [SB(s, p + 1) != bv(0x0B)]), ("bad", p + 2)))
+        head.append(SB(s, p + 1) == bv(0x0B))
+        q = p + 2
+        head.append(NUMV(s, q) == bv(len(shape), 64))
+        q = q + NUML(s, q)
+        cases.append((z3.And(head + [SB(s, q) != bv(0)]), ("bad", q + 1)))
+        head.append(SB(s, q) == bv(0))
+        q0 = q + 1
+        for hps in _it.product(*[list(_it.product((False, True), repeat=n)) for n in shape]):
+            conds, folders, q = list(head), [], q0
+            for n, hp in zip(shape, hps):
+                cf, cs, q = spec_folder(s, q, n, hp)
+                conds.append(cf)
+                folders.append(cs)
+            cases.append((z3.And(conds + [SB(s, q) != bv(0x0C)]), ("bad", q + 1)))
+            conds.append(SB(s, q) == bv(0x0C))
+            q = q + 1
+            sizes = []
+            for n in shape:
+                row = []
+                for _ in range(n):
+                    row.append(NUMV(s, q))
+                    q = q + NUML(s, q)
+                sizes.append(row)
+            t1, q1 = SB(s, q), q + 1
+            m = len(shape)
+            tails = [(t1 != bv(0x0A), [None] * m, t1, q1)]
+            # digests: allDefined != 0 -> m crcs; else bit vector
+            crcs_all = [le(s, q1 + 1 + 4 * k, 4) for k in range(m)]
+            tails.append((z3.And(t1 == bv(0x0A), SB(s, q1) != bv(0)), crcs_all, SB(s, q1 + 1 + 4 * m), q1 + 1 + 4 * m + 1))
+            bits = bits_spec(s, q1 + 1, m)
+            for assign in _it.product((False, True), repeat=m):
+                cpos = q1 + 1 + (m + 7) // 8
+                crcs = []
+                for a in assign:
+                    if a:
+                        crcs.append(le(s, cpos, 4))
+                        cpos = cpos + 4
+                    else:
+                        crcs.append(None)
+                cc = z3.And([t1 == bv(0x0A), SB(s, q1) == bv(0)] + [b if a else z3.Not(b) for a, b in zip(assign, bits)])
+                tails.append((cc, crcs, SB(s, cpos), cpos + 1))
+            for c2, crcs, t2, q2 in tails:
+                cases.append((z3.And(conds + [c2, t2 == bv(0)]), ("ok", folders, sizes, crcs, q2)))
+                cases.append((z3.And(conds + [c2, t2 != bv(0)]), ("bad", q2)))
+        return cases
+
+    def ushape_cond(shape):
+        """at most one folder in the bounded scope: its position does not depend on other folders"""
+        def cond(s, pos):
+            q = pos + 2
+            cs = [NUMV(s, q) == bv(len(shape), 64)]
+            q = q + NUML(s, q) + 1
+            for n in shape[:1]:
+                cs.append(NUMV(s, q) == bv(n, 64))
+            return z3.Implies(z3.And(SB(s, pos) == bv(7), SB(s, pos + 1) == bv(0x0B)), z3.And(cs))
+        return cond
+
+    def pu_bind(c):
+        s_, p = S(c), pos0(c)
+        for shape in USHAPES:
+            if not c.ex.feasible(c.st.pc, z3.Not(ushape_cond(shape)(s_, p))):
+                c.entry.ghost["bounded_ushape"] = shape
+                c.st.ghost["bounded_ushape"] = shape
+                break
+        return req_stream(c)
+
+    def pu_post(c):
+        shape = c.entry.ghost["bounded_ushape"]
+        res = c.result
+        d = c.st.obj(c.args["self"].ref).data
+        goals = []
+        for cond, oc in spec_unpack(S(c), pos0(c), shape):
+            if oc[0] == "none":
+                items = c.ex.concrete_items(c.st, res) if isinstance(res, VRef) else None
+                g = z3.And(z3.BoolVal(items == []), pos1(c) == oc[1])
+            elif oc[0] == "bad":
+                g = z3.BoolVal(False)
+            else:
+                _ok, folders, sizes, crcs, end = oc
+                items = c.ex.concrete_items(c.st, res) if isinstance(res, VRef) else None
+                g = z3.BoolVal(False)
+                if items is not None and len(items) == len(folders) and isinstance(d.get("_folders"), VRef) and d["_folders"].ref == res.ref:
+                    gs = [pos1(c) == end, end <= SLEN(S(c))]
+                    for f, cs, row, crc in zip(items, folders, sizes, crcs):
+                        fd = c.st.obj(f.ref).data
+                        gs.append(folder_matches(c, c.st, f, cs))
+                        us = c.ex.concrete_items(c.st, fd["unpack_sizes"])
+                        gs.append(z3.BoolVal(us is not None and len(us) == len(row)))
+                        if us is not None and len(us) == len(row):
+                            gs.extend(ops.eq_term(a, VInt(b)) for a, b in zip(us, row))
+                        if crc is None:
+                            gs.append(z3.BoolVal(fd["crc"] is NONE))
+                        else:
+                            gs.append(ops.eq_term(fd["crc"], VInt(crc)) if isinstance(fd["crc"], VInt) else z3.BoolVal(False))
+                    g = z3.And(gs)
+            goals.append(z3.Implies(cond, g))
+        return z3.And(goals)
+
+    def pu_raise(c):
+        shape = c.entry.ghost["bounded_ushape"]
+        L = SLEN(S(c))
+        alts = [pos0(c) + 1 > L]
+        allc = []
+        for cond, oc in spec_unpack(S(c), pos0(c), shape):
+            allc.append(cond)
+            if oc[0] == "bad":
+                alts.append(cond)
+            elif oc[0] == "ok":
+                alts.append(z3.And(cond, oc[4] > L))
+        # no case of the simple-coder grammar applies (a coder with flag 0x10): outside the scope of this bounded check
+        alts.append(z3.Not(z3.Or(allc)))
+        return z3.Or(alts)
+
+    out.append(FnContract(
+        target=f"{RD}._parse_unpack_info",
+        params=[("self", p_reader_cases({"_folders": p_empty_list()}, [ushape_cond(sh) for sh in USHAPES]))],
+        requires=pu_bind, modifies=("self",),
+        ensures=[("folders-coders-sizes-crcs-and-position-equal-the-UnpackInfo-grammar", pu_post)],
+        raises=[Raises(BAD, when=pu_raise, label="bad marker / external folders / short stream")],
+        bounded=f"coder counts per folder {USHAPES} (simple coders, with / without properties, all digest layouts); every stream byte symbolic",
+        note="UnpackInfo grammar of 7zFormat.txt for simple coder chains"))
     return out
 
 
@@ -2057,6 +2288,6 @@ ASSUMPTIONS = [
     "the end-to-end statement (read_archive == direct extraction per member, in order) is the COMPOSITION of the layer contracts "
     "(a)-(f); the composition itself is argued in the pack's docstring, not discharged by the solver",
     "a ZIP/TAR/7z member above max_memory_size / MAX_ARCHIVE_FILE_SIZE is skipped (C12's limits); members are distinct names",
-    "_parse_unpack_info / _parse_folder / _parse_files_info / _parse_header are NOT under contract (native differential replay only)",
+    "_parse_files_info / _parse_header / _parse_main_header / _parse_streams_info are NOT under contract (native differential replay only)",
 ]
 BOUNDED = []
